@@ -20,12 +20,14 @@ EXTENDS JsonLex
 CONSTANTS Alphabet,   \* byte classes used by this configuration
           MaxLen,     \* maximal length of s
           StrCap,     \* maximal number of bytes inside one string literal (excl. the opening quote)
-          Prefix      \* fixed beginning of every generated string (e.g. `{"x":` puts the tail in a skipped position)
+          Prefix,     \* fixed beginning of every generated string (e.g. `{"x":` puts the tail in a skipped position)
+          Recover     \* TRUE: a string may contain ONE byte the structural machine rejects and go on as if it were not there
+                      \*       (a valid document with one offending byte inserted anywhere: malformed whatever follows)
 
-VARIABLES s, m, ms, sc, v,
+VARIABLES s, m, ms, sc, v, ins, insexp, insdepth,
           gaps   \* positions (number of bytes before them) where blanks may be inserted without changing the token
                  \* sequence: between tokens, or after a complete number that the next byte does not continue
-vars == <<s, m, ms, sc, v, gaps>>
+vars == <<s, m, ms, sc, v, ins, insexp, insdepth, gaps>>
 
 Verdict(a, b) ==
   IF a.st = "deep" \/ b.st = "deep" THEN "deep"
@@ -37,7 +39,7 @@ NumChars == {"d0", "d1", "dt", "le", "ue", "pl", "mi"}
 GapBefore(mach, c) == mach.st = "run" /\ (mach.lx = "" \/ (NumDone(mach.lx) /\ c \notin NumChars))
 
 Init == /\ s = Prefix /\ m = Run(Prefix, TRUE) /\ ms = RunFrom(Start, Prefix, 1, FALSE, FALSE) /\ sc = 0
-        /\ v = Verdict(m, ms) /\ gaps = {}
+        /\ v = Verdict(m, ms) /\ gaps = {} /\ ins = 0 /\ insexp = "" /\ insdepth = 0
 
 Next ==
   /\ Len(s) < Len(Prefix) + MaxLen
@@ -45,11 +47,17 @@ Next ==
   /\ \E c \in Alphabet :
        /\ (InStr(ms.lx) /\ sc >= StrCap) => c = "qt"
        /\ s'  = Append(s, c)
-       /\ m'  = Delta(m, c, TRUE, FALSE)
-       /\ ms' = Delta(ms, c, FALSE, FALSE)
-       /\ sc' = IF InStr(ms.lx) THEN sc + 1 ELSE 0
-       /\ v'  = Verdict(m', ms')
-       /\ gaps' = IF GapBefore(ms, c) /\ GapBefore(m, c) THEN gaps \cup {Len(s)} ELSE gaps
+       /\ \/ /\ m'  = Delta(m, c, TRUE, FALSE)
+             /\ ms' = Delta(ms, c, FALSE, FALSE)
+             /\ sc' = IF InStr(ms.lx) THEN sc + 1 ELSE 0
+             /\ v'  = IF ins = 1 THEN "reject" ELSE Verdict(m', ms')
+             /\ gaps' = IF GapBefore(ms, c) /\ GapBefore(m, c) THEN gaps \cup {Len(s)} ELSE gaps
+             /\ UNCHANGED <<ins, insexp, insdepth>>
+          \/ \* the offending byte is there, the machines go on from where they were: no prefix of the result that
+             \* includes it is viable, so every such string is malformed
+             /\ Recover /\ ins = 0 /\ Delta(ms, c, FALSE, FALSE).st = "err" /\ ~InStr(ms.lx)
+             /\ ins' = 1 /\ v' = "reject" /\ insdepth' = Len(ms.stk) /\ insexp' = Delta(ms, c, FALSE, FALSE).exp     \* as in the error state of the minimal rejected string
+             /\ UNCHANGED <<m, ms, sc, gaps>>
 
 Spec == Init /\ [][Next]_vars
 
@@ -57,17 +65,19 @@ Spec == Init /\ [][Next]_vars
 TypeOK == /\ m.st \in {"run","err","deep"} /\ ms.st \in {"run","err","deep"}
           /\ Len(m.stk) <= MaxDepth /\ Len(ms.stk) <= MaxDepth
 \* the pushdown automaton computes exactly the declarative grammar
-PdaIsGrammar == (IF m.st = "deep" THEN "deep" ELSE IF AcceptsAtEnd(m) THEN "valid" ELSE "invalid") = Grammar(s)
+PdaIsGrammar == ins = 1 \/ (IF m.st = "deep" THEN "deep" ELSE IF AcceptsAtEnd(m) THEN "valid" ELSE "invalid") = Grammar(s)
 \* strict acceptance implies structural acceptance; strict viability implies structural viability
 StrictWithinStructural == /\ (AcceptsAtEnd(m) => AcceptsAtEnd(ms))
                           /\ (m.st = "run" => ms.st = "run")
                           /\ (m.st = "run" => (m.stk = ms.stk /\ m.exp = ms.exp))
 \* the incremental machines equal a run from scratch (Delta is a pure fold)
-FoldOK == m = Run(s, TRUE) /\ ms = RunFrom(Start, s, 1, FALSE, FALSE)
+FoldOK == ins = 1 \/ (m = Run(s, TRUE) /\ ms = RunFrom(Start, s, 1, FALSE, FALSE))
 \* a document that opens with a container or a string and does not end in a blank has no proper prefix that is itself a
 \* document: every truncation of it is malformed.  The typed prefix universe (C02 / C05: every prefix of the binding
 \* universe's documents decoded into a typed destination) takes "must be rejected" from this.
-PrefixFree == (Len(s) > 0 /\ AcceptsAtEnd(ms) /\ s[1] \in {"lb", "ls", "qt"} /\ ~IsBlank(s[Len(s)]))
+\* a string with an inserted offending byte is not a document
+InsertedIsInvalid == ins = 1 => Grammar(s) # "valid"
+PrefixFree == (ins = 0 /\ Len(s) > 0 /\ AcceptsAtEnd(ms) /\ s[1] \in {"lb", "ls", "qt"} /\ ~IsBlank(s[Len(s)]))
                  => \A k \in 1..(Len(s) - 1) : ~AcceptsAtEnd(RunFrom(Start, SubSeq(s, 1, k), 1, FALSE, FALSE))
 \* overflow of the nesting limit is a state of its own, never a wrap-around
 DepthIsError == (m.st = "deep") => Len(m.stk) = MaxDepth
